@@ -154,6 +154,13 @@ def one_scenario(ctx, S, nonmonotone, n_calls, corrs):
                 ctx.witness("C20.3", {"kind": "count_trading_dates"}, "count_trading_dates(%s, %s) = %s, slice length %s" % (d, e, cnt, len(want)), {"cal": cal8, "start": d8, "end": e8})
             if istd != (d8 in cal8):
                 ctx.witness("C20.3", {"kind": "is_trading_date"}, "is_trading_date(%s) = %s" % (d, istd), {"cal": cal8, "date": d8})
+            # the same day handed over as a datetime or a pandas Timestamp (what the calendar functions themselves return) is the same day
+            import pandas as pd
+            for form, arg in (("datetime", datetime.datetime.combine(d, datetime.time(0, 0))), ("Timestamp", pd.Timestamp(d))):
+                other = bool(dp.is_trading_date(arg))
+                reqs.append((c_cal, "%s ISTD %d" % (calline, d8), "1" if other else "0", {"op": "is_trading_date", "date": str(d), "argument_type": form}))
+                if other != (d8 in cal8):
+                    ctx.witness("C20.3", {"kind": "is_trading_date", "argument_type": form}, "is_trading_date(%s(%s)) = %s, is_trading_date(date) = %s" % (form, d, other, istd), {"cal": cal8, "date": d8, "argument_type": form})
             if inside:
                 i = cal8.index(d8)
                 p1 = ts8(dp.get_previous_trading_date(d, 1))
